@@ -181,3 +181,216 @@ class EagerContractTensors(Contract):
             ("operands_reshaped_without_unit_event_dims", layout),
             ("result_reshaped_and_typed_by_the_remaining_inputs", data.tag == ("reshape", ("einsum", equation), exp_final) and list(inputs) == remaining and backend == "BACKEND"),
         ]
+
+
+# ==================================================================================================
+# C08 / C09: the einsum front ends of funsor/einsum/__init__.py -- which dims are summed, which are plate products
+# ==================================================================================================
+class OpT:
+    def __init__(self, name):
+        self.name = name
+
+    def __call__(self, a, b):
+        return ("bin", self.name, a, b)
+
+    def __repr__(self):
+        return self.name
+
+
+SUMOP, PRODOP = OpT("sum_op"), OpT("prod_op")
+
+
+class TermE:
+    def __init__(self, k, dims):
+        self.k = k
+        self.inputs = OrderedDict((d, "dom_" + d) for d in dims)
+
+    def __repr__(self):
+        return "term%d" % self.k
+
+
+class FunsorE:
+    @staticmethod
+    def __sym_instancecheck__(x):
+        return isinstance(x, TermE)
+
+
+EQNS = ["a,ab->b", "ab,bc->ac", "a,a->", "ab,b->ab", "abc,c->", "a->a", "ab,ab,b->a", "ai,abi,b->", "ai,bi->i"]
+
+
+class _Einsum(Contract):
+    props = ("C08",)
+    file = "funsor/einsum/__init__.py"
+    total = True
+
+    def terms_of(self, eqn):
+        ins = eqn.split("->")[0].split(",")
+        return tuple(TermE(k, d) for k, d in enumerate(ins))
+
+    def common_ns(self, rec):
+        class VarE:
+            def __init__(self, name, dom):
+                self.name, self.dom = name, dom
+
+            def __eq__(self, o):
+                return isinstance(o, VarE) and (o.name, o.dom) == (self.name, self.dom)
+
+            def __hash__(self):
+                return hash((self.name, self.dom))
+
+        return dict(BACKEND_OPS={"numpy": (SUMOP, PRODOP)}, Funsor=FunsorE, Variable=VarE, isinstance=core.sisinstance, frozenset=frozenset, str=str, len=len, all=core.sall, ValueError=ValueError, NotImplementedError=NotImplementedError), VarE
+
+
+@register
+class NaiveContractEinsum(_Einsum):
+    """naive_contract_einsum(eqn, *terms, backend): Contraction(sum_op, prod_op, R, *terms) of the backend's semiring with R the
+    variables (typed by the terms' inputs) for exactly the symbols that occur in some input and not in the output."""
+
+    qualname = "naive_contract_einsum"
+    mutants = (("output dims reduced instead", "for k in input_dims - output_dims", "for k in output_dims"),)
+
+    def structures(self, tier):
+        for e in EQNS[:7]:
+            yield "eqn=%s" % e, e
+
+    def build(self, p, eqn):
+        rec = []
+        ns, VarE = self.common_ns(rec)
+        ns["Contraction"] = lambda s, pr, rv, *ts: ("Contraction", s, pr, rv, ts)
+        terms = self.terms_of(eqn)
+        return Ctx(args=(eqn,) + terms, kwargs=dict(backend="numpy"), namespace=ns, eqn=eqn, terms=terms, VarE=VarE)
+
+    def ensures(self, ctx, result):
+        ins, out = ctx.eqn.split("->")
+        red = set("".join(ins.split(","))) - set(out)
+        exp = frozenset(ctx.VarE(d, "dom_" + d) for d in red)
+        return [("contraction_over_exactly_the_symbols_absent_from_the_output", result == ("Contraction", SUMOP, PRODOP, exp, ctx.terms))]
+
+
+@register
+class NaiveEinsum(_Einsum):
+    """naive_einsum(eqn, *terms, backend): the prod_op-fold of the terms (left to right), sum_op-reduced over exactly the
+    symbols that occur in some input and not in the output."""
+
+    qualname = "naive_einsum"
+    mutants = (("reduces every input symbol", "    reduce_dims = input_dims - output_dims", "    reduce_dims = input_dims"),)
+
+    def structures(self, tier):
+        for e in EQNS[:7]:
+            yield "eqn=%s" % e, e
+
+    def build(self, p, eqn):
+        ns, VarE = self.common_ns([])
+
+        class Folded:
+            def __init__(self, t):
+                self.t = t
+
+            def reduce(self, op, dims):
+                return ("reduce", op, frozenset(dims), self.t)
+
+        def reduce_(op, seq):
+            seq = list(seq)
+            acc = seq[0]
+            for x in seq[1:]:
+                acc = op(acc, x)
+            return Folded(acc)
+
+        ns["reduce"] = reduce_
+        terms = self.terms_of(eqn)
+        return Ctx(args=(eqn,) + terms, kwargs=dict(backend="numpy"), namespace=ns, eqn=eqn, terms=terms)
+
+    def ensures(self, ctx, result):
+        ins, out = ctx.eqn.split("->")
+        red = frozenset(set("".join(ins.split(","))) - set(out))
+        acc = ctx.terms[0]
+        for t in ctx.terms[1:]:
+            acc = ("bin", "prod_op", acc, t)
+        return [("product_of_all_terms_summed_over_the_symbols_absent_from_the_output", result == ("reduce", SUMOP, red, acc))]
+
+
+@register
+class NaivePlatedEinsum(_Einsum):
+    """naive_plated_einsum(eqn, *terms, plates, backend): without plates it is naive_einsum; with plates it is
+    sum_product(sum_op, prod_op, terms, eliminate, plates) where eliminate = (plate symbols absent from the output, which are
+    product-reduced) + (non-plate input symbols absent from the output, which are sum-reduced) -- callee contract
+    SumProductFold / PartialSumProduct -- and an output plate that some input lacks is refused (NotImplementedError)."""
+
+    props = ("C08", "C09")
+    qualname = "naive_plated_einsum"
+    mutants = (("output plates eliminated too", "    plate_dims = frozenset(plates) - output_dims", "    plate_dims = frozenset(plates)"),)
+
+    def structures(self, tier):
+        for e in EQNS:
+            for plates in ("", "i", "b"):
+                yield "eqn=%s,plates=%s" % (e, plates or "-"), (e, plates)
+
+    def build(self, p, st):
+        eqn, plates = st
+        ns, VarE = self.common_ns([])
+        ns["naive_einsum"] = lambda e, *ts, **kw: ("naive_einsum", e, ts, tuple(sorted(kw.items())))
+        ns["sum_product"] = lambda s, pr, ts, elim, pl: ("sum_product", s, pr, tuple(ts), frozenset(elim), frozenset(pl))
+        terms = self.terms_of(eqn)
+        return Ctx(args=(eqn,) + terms, kwargs=dict(backend="numpy", plates=plates), namespace=ns, st=st, terms=terms)
+
+    def refused(self, st):
+        eqn, plates = st
+        ins, out = eqn.split("->")
+        return bool(plates) and not all((set(out) & set(plates)) <= set(i) for i in ins.split(","))
+
+    def may_raise(self, ctx, etype):
+        return self.refused(ctx.st) and etype == "NotImplementedError"
+
+    def allow_vacuous(self, st):
+        return self.refused(st)
+
+    def ensures(self, ctx, result):
+        eqn, plates = ctx.st
+        ins, out = eqn.split("->")
+        if not plates:
+            return [("no_plates_is_plain_einsum", result == ("naive_einsum", eqn, ctx.terms, (("backend", "numpy"),)))]
+        sym = set("".join(ins.split(",")))
+        elim = frozenset((set(plates) - set(out)) | (sym - set(out) - set(plates)))
+        return [("returns_only_when_output_plates_are_in_every_input", not self.refused(ctx.st)), ("eliminates_reduced_plates_and_summed_symbols", result == ("sum_product", SUMOP, PRODOP, ctx.terms, elim, frozenset(plates)))]
+
+
+@register
+class EinsumFrontEnd(_Einsum):
+    """einsum(eqn, *terms, **kwargs): builds naive_plated_einsum(eqn, *terms, **kwargs) under the lazy interpretation (entered
+    and left exactly once) and returns apply_optimizer of that term -- value preservation is then the contracts of the
+    optimizer's rules (UnfoldContractionGenericTuple, OptimizeContract)."""
+
+    props = ("C08", "C09")
+    qualname = "einsum"
+
+    def structures(self, tier):
+        yield "eqn=ab,bc->ac,plates=-", ("ab,bc->ac", "")
+        yield "eqn=ai,bi->i,plates=i", ("ai,bi->i", "i")
+
+    def build(self, p, st):
+        eqn, plates = st
+        log = []
+
+        class Lazy:
+            def __enter__(self_):
+                log.append("enter-lazy")
+
+            def __exit__(self_, *a):
+                log.append("exit-lazy")
+                return False
+
+        def npe(e, *ts, **kw):
+            log.append("build")
+            return ("naive_plated_einsum", e, ts, tuple(sorted(kw.items())))
+
+        def apply_optimizer(x):
+            log.append("optimize")
+            return ("optimized", x)
+
+        terms = self.terms_of(eqn)
+        kw = dict(backend="numpy", plates=plates) if plates else dict(backend="numpy")
+        return Ctx(args=(eqn,) + terms, kwargs=kw, namespace=dict(lazy=Lazy(), naive_plated_einsum=npe, apply_optimizer=apply_optimizer), log=log, st=st, terms=terms, kw=kw)
+
+    def ensures(self, ctx, result):
+        eqn, plates = ctx.st
+        return [("lazy_build_then_optimize", ctx.log == ["enter-lazy", "build", "exit-lazy", "optimize"] and result == ("optimized", ("naive_plated_einsum", eqn, ctx.terms, tuple(sorted(ctx.kw.items())))))]
